@@ -53,7 +53,7 @@ NormA(x) ==
       [] x.fsm = "BURST_WRITE" -> [x EXCEPT !.byteenable = 0, !.writedata = 0, !.crc = 0, !.seen = 0]
       [] x.fsm = "BURST_READ" -> [x EXCEPT !.byteenable = 0, !.writedata = 0,
                                            !.crc = IF x.seen = 1 THEN 0 ELSE @, !.address = IF x.seen = 1 THEN 0 ELSE @]
-NormO(x) == [x EXCEPT !.gapw = FALSE, !.mem = [B \in 0..NA - 1 |-> BmGet(x.mem, B)], !.cmd = IF x.hold THEN @ ELSE AvInit.cmd, !.wa = IF x.wl > 0 THEN @ ELSE 0]
+NormO(x) == [x EXCEPT !.gapw = FALSE, !.brst = FALSE, !.mem = [B \in 0..NA - 1 |-> BmGet(x.mem, B)], !.cmd = IF x.hold THEN @ ELSE AvInit.cmd, !.wa = IF x.wl > 0 THEN @ ELSE 0]
 
 Tick ==
   LET i == [rd |-> m.rd, wr |-> m.wr, a |-> m.a, bc |-> m.bc, be |-> m.be, d |-> m.d,
